@@ -103,9 +103,9 @@ func TestVerifFullStack(t *testing.T) {
 	  "tls":{"certificates":{"automate":["localhost"]},"automation":{"policies":[{"subjects":["localhost"],"issuers":[{"module":"internal"}]}]}},
 	  "http":{"servers":{"web":{"listen":["%s"],"automatic_https":{"disable":true},
 	    "listener_wrappers":[{"wrapper":"layer4","routes":[
-	      {"match":[{"tls":{}}],"handle":[{"handler":"tls"}]},
+	      {"match":[{"tls":{}}],"handle":[{"handler":"tls"},{"handler":"throttle","read_bytes_per_second":100000000,"read_burst_size":1000000}]},
 	      {"match":[{"regexp":{"pattern":"^RAW","count":3}}],"handle":[{"handler":"echo"}]}]}],
-	    "routes":[{"handle":[{"handler":"static_response","body":"hello from the wrapped http server"}]}]}}},
+	    "routes":[{"handle":[{"handler":"static_response","body":"hello from the wrapped http server scheme={http.request.scheme} tls={http.request.tls.version}"}]}]}}},
 	  "layer4":{"servers":{"u":{"listen":["udp/%s"],"routes":[{"handle":[{"handler":"echo"}]}]},"s":{"listen":["%s"],"routes":[
 	    {"match":[{"tls":{"sni":["localhost"]}}],"handle":[{"handler":"tls"},{"handler":"subroute","routes":[
 	        {"match":[{"regexp":{"pattern":"^S","count":1}}],"handle":[{"handler":"proxy","upstreams":[{"dial":["%s"]}]}]},
@@ -290,6 +290,12 @@ func TestVerifFullStack(t *testing.T) {
 			resp, err := io.ReadAll(c)
 			if err != nil || !bytes.Contains(resp, []byte(want)) || !bytes.HasPrefix(resp, []byte("HTTP/1.1 200")) {
 				hfail("wrapper-handoff", fmt.Sprintf("http client %d (tls=%v): the wrapped server did not answer the request handed over by layer4: %q err %v", k, kind == 0, clipb(resp), err))
+			} else if kind == 0 && !(bytes.Contains(resp, []byte("scheme=https")) && bytes.Contains(resp, []byte("tls=tls1."))) {
+				// TLS was terminated by layer4 (and another connection-wrapping handler ran after it): the wrapped server must still see
+				// the TLS connection state
+				hfail("wrapper-tls-state", fmt.Sprintf("https client %d: the wrapped http server does not see the TLS connection state of the connection layer4 terminated: %q", k, clipb(resp)))
+			} else if kind == 1 && !bytes.Contains(resp, []byte("scheme=http ")) {
+				hfail("wrapper-tls-state", fmt.Sprintf("plain http client %d: the wrapped server reports %q", k, clipb(resp)))
 			}
 		}(k)
 	}
